@@ -77,6 +77,11 @@ def cases(tier):
     # subtrahend wider than the minuend (saturating subtraction uses the borrow of the wider width)
     add('sub', [(1, 2, 2), (1, 2, 4)])
     add('sub', [(2, 1, 1), (2, 1, 3)])
+    # a Const object as the scalar factor: powers of two and other values, minimal and padded bitwidths
+    for k in (1, 2, 3, 4, 8, 12):
+        add('mul_const', [(2, 2, 4)], k=k)
+    add('mul_const', [(1, 2, 3)], k=4, kbw=5)
+    add('mul_const', [(2, 1, 2)], k=2, kbw=2)
     # max_bits reached: results reduce modulo 2**max_bits
     add('add', [(2, 2, 3), (2, 2, 3)], max_bits=3, saturates_max_bits=True)
     add('mul', [(2, 2, 3), (2, 2, 3)], max_bits=4, saturates_max_bits=True)
@@ -87,7 +92,7 @@ def cases(tier):
 def run(ctx):
     combfam.run_comb_family(ctx, 'C19.matrix', cases(ctx.tier), FUNCS,
                             'Matrix operation differs from integer-matrix arithmetic',
-                            opts=dict(timeout_ms=120000))
+                            opts=dict(timeout_ms=120000, const_twins=4))
     ctx.assume('z3 soundness; spec/netsem.py; element layout: first element most significant')
     return ctx.finish('other', './check C19', ['z3', 'spec/netsem.py', 'elab/n2smt.py'],
                       'bounded stand-in: each operation elaborated per shape / element width; all element values by SMT')
